@@ -10,6 +10,8 @@ import warnings
 warnings.simplefilter("ignore")
 import io, contextlib
 import numpy as np
+sys.path.insert(0, os.path.dirname(os.path.dirname(os.path.abspath(__file__))))
+from harness.layouts import relayout
 with contextlib.redirect_stdout(io.StringIO()):
     import pymoode.survival.rank_and_crowding.metrics as metrics
 assert metrics.IS_COMPILED == (engine == "compiled"), "engine selection failed"
@@ -43,6 +45,7 @@ for line in sys.stdin:
     req = json.loads(line)
     state["log"] = []; state["argpart"] = []
     F = np.array([[float.fromhex(h) for h in r] for r in req["F"]], dtype=float).reshape(len(req["F"]), -1)
+    F = relayout(F, req.get("layout"))
     F0 = F.copy()
     res = {}
     try:
@@ -50,9 +53,14 @@ for line in sys.stdin:
             if req.get("raw"):
                 # raw kernel / fallback function without the FunctionalDiversity wrapper
                 f = {"mnn": metrics.calc_mnn_nds, "2nn": metrics.calc_2nn_nds, "pcd": metrics.calc_pcd_nds}[req["label"]]
-                d = f(F.copy(), n_remove=req["n_remove"])
+                d = f(relayout(F.copy(), req.get("layout")), n_remove=req["n_remove"])
             else:
-                d = metrics.get_crowding_function(req["label"]).do(F, n_remove=req["n_remove"])
+                op = metrics.get_crowding_function(req["label"])
+                if req.get("prime_n_remove") is not None:
+                    # the same operator object has just been asked about the same front with another number of removals
+                    op.do(F, n_remove=req["prime_n_remove"])
+                    state["log"] = []; state["argpart"] = []
+                d = op.do(F, n_remove=req["n_remove"])
         d = np.asarray(d, dtype=float)
         res = {"d": [float(x).hex() for x in d.ravel()], "shape": list(d.shape), "frame": bool(np.array_equal(F, F0))}
     except Exception as e:
